@@ -387,7 +387,7 @@ func c16CountWith(w *mon.W, idx int, medium bool) {
 	w.Sample(func() interface{} { return mon.D{"keys": fmt.Sprintf("%.300q", keys), "all_subranges": all} })
 }
 
-var c16LongLens = []int{31, 32, 33, 63, 64, 65, 127, 128, 129, 255, 256, 257, 300, 4100}
+var c16LongLens = []int{31, 32, 33, 63, 64, 65, 127, 128, 129, 255, 256, 257, 300, 4100, 8192, 65537, 70000}
 
 // c16LongKeys: keys of 31..4100 bytes that agree on almost all of their length (first-difference
 // bits beyond 2^11 and 2^15), FirstDiffBits on the list and CountPrefixes on its sorted version.
